@@ -3,12 +3,18 @@ Props/C02.lean — "Every discrete log or key relation reported for an EC key or
 
 The four clauses of the property, each as a theorem about the executable model (statements
 over Mathlib's group `(W c).Point` through `toPoint`; primality of the field prime is the
-standing hypothesis `[Fact c.p.Prime]`, validated per run):
+standing hypothesis `[Fact c.p.Prime]` of the curve-generic statements — for the nine curves of
+`CURVE_FACTORY` it is kernel-checked (Props/C11Primes) and the hypothesis-free instances are in
+Props/C02Cert.lean):
 
  1. EC keys, small logs (`BatchDL`): every reported value multiplies the generator to the point.
- 2. EC keys, structured private keys (`ExtendedBatchDL`, CheckWeakECPrivateKey): for a VALID
-    point (`n • P = 0`, the property's hypothesis) the recorded value is a true discrete log;
-    the hypothesis is needed (`C10.extended_needs_subgroup`).
+ 2. EC keys, structured private keys (`ExtendedBatchDL`, CheckWeakECPrivateKey): for an on-curve
+    point with `n • P = 0` the recorded value is a true discrete log; the hypothesis is needed
+    (`C10.extended_needs_subgroup`).  NOTE: on the nine cofactor-1 curves "valid point"
+    (`IsValidPublicKey`: on the curve, in range) gives `n • P = 0` only together with
+    `#E(F_p) = n`, a fact of the standards that is NOT proved here; for points WITH A PRIVATE KEY
+    (`P = d • G`, the quantifier of the property) it follows from `n • G = 0`:
+    `extendedBatchDL_sound_of_privateKey`, Props/C02Cert.lean.
  3. Small private-key differences: the recorded relation `key - (x, y) = k*G` holds for the
     recorded point and `k`, and the mirrored entry with `-k`.
  4. ECDSA nonce checks: an issuer dlog `d` is recorded for a signature only if
